@@ -35,7 +35,8 @@ class Facts:
         return path in self.fns and len(self.fns[path]) == 1
 
     def hand_written_fns(self):
-        return [f for f in self.raw['fns'] if not f['from_expansion']]
+        # bodies written in this crate: not macro output, except the output of the crate's own macro_rules!
+        return [f for f in self.raw['fns'] if not f['from_expansion'] or f.get('macro_local')]
 
     # ------------------------------------------------------------ impl resolution
     def find_impl_method(self, trait_path, trait_args, self_ty, method):
